@@ -1,7 +1,7 @@
 (* Extraction of the executable free-list machine (C19).  ExtrOcamlBasic only.
    (BinInt.Z.of_nat is extracted only because lib/zutil.ml expects the BinNums module to exist.) *)
 From Coq Require Import List ZArith Extraction ExtrOcamlBasic.
-From C19 Require Treiber TreiberExact.
+From C19 Require Treiber TreiberExact TreiberRows.
 Separate Extraction Treiber.step Treiber.run Treiber.init Treiber.walk Treiber.held Treiber.dpc_kind Treiber.opc_kind
-  TreiberExact.stepx TreiberExact.xinit
+  TreiberExact.stepx TreiberExact.xinit TreiberRows.stepl TreiberRows.linit
   BinInt.Z.of_nat.
